@@ -154,8 +154,17 @@ func (m *Machine) bigDivMod(x, y *smt.Term, trunc bool) (*smt.Term, *smt.Term) {
 	}
 	// bv mode: only non-negative operands supported
 	if !m.bigNonNegKnown(x) || !m.bigNonNegKnown(y) {
-		zero := m.bigConst(big.NewInt(0))
-		m.Oblige(smt.And(smt.Not(m.bigLt(x, zero)), smt.Not(m.bigLt(y, zero))), "engine: bv-mode big division needs non-negative operands", "panic")
+		if x.IsConst() && y.IsConst() {
+			xv, yv := x.SignedVal(), y.SignedVal()
+			q, r := new(big.Int), new(big.Int)
+			if trunc {
+				q.QuoRem(xv, yv, r)
+			} else {
+				q.DivMod(xv, yv, r)
+			}
+			return m.bigConst(q), m.bigConst(r)
+		}
+		m.unsupported("bv-mode big.Int division with possibly negative symbolic operands")
 	}
 	return smt.BvUdiv(x, y), smt.BvUrem(x, y)
 }
